@@ -337,3 +337,157 @@ func TestVF_C28(t *testing.T) {
 		return msg
 	})
 }
+
+// ---- overlapping all-channel unsubscribes -----------------------------------------------------------------------
+//
+// TestVF_C28_Overlap: two Node.Unsubscribe(user, "") calls overlap on one connection. The first one is parked inside
+// RemovePresence of the first channel it tears down (a PresenceManager round trip: plug-in boundary, no library lock
+// held); meanwhile the connection gains 0-2 new subscriptions; the second call is issued; the first one is released.
+// Oracle ("an empty channel name unsubscribes every matching connection from all of its channels"): once both calls
+// returned and the node is quiescent the connection holds no channel, and every channel it held (old and new) got
+// exactly one unsubscribe callback and one unsubscribe push.
+
+type vfC28Presence struct {
+	inner PresenceManager
+	pass  func()
+}
+
+func (p *vfC28Presence) Presence(ch string) (map[string]*ClientInfo, error) { return p.inner.Presence(ch) }
+func (p *vfC28Presence) PresenceStats(ch string) (PresenceStats, error)      { return p.inner.PresenceStats(ch) }
+func (p *vfC28Presence) AddPresence(ch string, clientID string, info *ClientInfo) error {
+	return p.inner.AddPresence(ch, clientID, info)
+}
+func (p *vfC28Presence) RemovePresence(ch string, clientID string, userID string) error {
+	p.pass()
+	return p.inner.RemovePresence(ch, clientID, userID)
+}
+
+func TestVF_C28_Overlap(t *testing.T) {
+	vfCheck(t, "C28", func(rt *rapid.T, c *vfCase) string {
+		nOld := rapid.IntRange(1, 4).Draw(rt, "oldSubs")
+		nNew := rapid.IntRange(0, 2).Draw(rt, "newSubs")
+		newServerSide := rapid.Bool().Draw(rt, "newServerSide")
+		proto := rapid.SampledFrom([]ProtocolType{ProtocolTypeJSON, ProtocolTypeProtobuf}).Draw(rt, "proto")
+		secondFirst := rapid.Bool().Draw(rt, "secondCallBeforeNewSubs")
+		c.Describe(fmt.Sprintf("overlap: oldSubs=%d (all with presence) newSubs=%d newServerSide=%v proto=%s secondCallBeforeNewSubs=%v", nOld, nNew, newServerSide, proto, secondFirst))
+		c.Label("overlapping_unsubscribe_all")
+		if nNew > 0 && !secondFirst {
+			c.Nontrivial(c.desc)
+		}
+		return vfBubble(t, func() string {
+			w, err := vfNewWorld(Config{}, nil)
+			if err != nil {
+				return "infra: " + err.Error()
+			}
+			defer w.Close()
+			gate := false
+			w.node.SetPresenceManager(&vfC28Presence{inner: w.node.presenceManager, pass: func() {
+				if gate {
+					w.Gates.Pass("rmpresence")
+				}
+			}})
+			w.ChanOpts = func(c *vfConn, e SubscribeEvent) (SubscribeReply, error) {
+				return SubscribeReply{Options: SubscribeOptions{EmitPresence: true}}, nil
+			}
+			conn := w.NewConn(vfConnCfg{Name: "s", User: "u", Proto: proto})
+			conn.Connect(nil)
+			var all []string
+			for i := 0; i < nOld; i++ {
+				ch := fmt.Sprintf("old%d", i)
+				all = append(all, ch)
+				conn.Cmd(&protocol.Command{Id: conn.NextID(), Subscribe: &protocol.SubscribeRequest{Channel: ch}})
+			}
+			vfSettle()
+			if got := conn.Client.Channels(); len(got) != nOld {
+				return fmt.Sprintf("setup: channels %v", got)
+			}
+			evFrom, frFrom := len(w.Events()), len(conn.Frames())
+			gate = true
+			w.Gates.Arm("rmpresence", 1)
+			first := make(chan error, 1)
+			go func() { first <- w.node.Unsubscribe("u", "") }()
+			vfSettle()
+			parked := w.Gates.Waiting("rmpresence") > 0
+			if !parked {
+				return "setup: the first sweep did not park in RemovePresence"
+			}
+			second := make(chan error, 1)
+			callSecond := func() { go func() { second <- w.node.Unsubscribe("u", "") }() }
+			if secondFirst {
+				callSecond()
+				vfSettle()
+			}
+			for i := 0; i < nNew; i++ {
+				ch := fmt.Sprintf("new%d", i)
+				all = append(all, ch)
+				if newServerSide {
+					if err := conn.Client.Subscribe(ch, WithEmitPresence(true)); err != nil {
+						return fmt.Sprintf("subscribe %s while the first sweep is parked failed: %v", ch, err)
+					}
+				} else {
+					conn.Cmd(&protocol.Command{Id: conn.NextID(), Subscribe: &protocol.SubscribeRequest{Channel: ch}})
+				}
+			}
+			vfSettle()
+			if !secondFirst {
+				callSecond()
+				vfSettle()
+			}
+			gate = false
+			w.Gates.Disarm("rmpresence")
+			for w.Gates.Release("rmpresence") {
+			}
+			if err := <-first; err != nil {
+				return fmt.Sprintf("first Node.Unsubscribe returned %v", err)
+			}
+			if err := <-second; err != nil {
+				return fmt.Sprintf("second Node.Unsubscribe returned %v", err)
+			}
+			vfSettle()
+			time.Sleep(2 * time.Second)
+			vfSettle()
+			frames := vfRenderFrames(conn.Frames()[frFrom:])
+			if closed, d := conn.T.Closed(); closed {
+				return fmt.Sprintf("connection was closed (%d %s); frames: %s", d.Code, d.Reason, frames)
+			}
+			// a subscription that started after the second call returned is outside both calls: only channels that existed
+			// when the second call was issued must be gone
+			must := all
+			if secondFirst {
+				must = all[:nOld]
+			}
+			left := map[string]bool{}
+			for _, ch := range conn.Client.Channels() {
+				left[ch] = true
+			}
+			for _, ch := range must {
+				if left[ch] {
+					return fmt.Sprintf("channel %s is still subscribed after two overlapping Node.Unsubscribe(user, \"\") calls returned (it existed when the second call was issued); frames: %s", ch, frames)
+				}
+			}
+			cbs, pushes := map[string]int{}, map[string]int{}
+			for _, e := range w.Events()[evFrom:] {
+				if e.Kind == "unsubscribe" && e.Client == conn.Client.ID() {
+					cbs[e.Ch]++
+				}
+			}
+			for _, f := range conn.Frames()[frFrom:] {
+				if f.Reply != nil && f.Reply.Push != nil && f.Reply.Push.Unsubscribe != nil {
+					pushes[f.Reply.Push.Channel]++
+				}
+			}
+			for _, ch := range must {
+				if cbs[ch] != 1 || pushes[ch] != 1 {
+					return fmt.Sprintf("channel %s: %d unsubscribe callbacks and %d unsubscribe pushes, expected one each; frames: %s", ch, cbs[ch], pushes[ch], frames)
+				}
+				p, err := w.node.Presence(ch)
+				if err == nil {
+					if _, ok := p.Presence[conn.Client.ID()]; ok {
+						return fmt.Sprintf("channel %s: still in presence after being unsubscribed from all channels", ch)
+					}
+				}
+			}
+			return ""
+		})
+	})
+}
